@@ -90,7 +90,7 @@ theorem exact_line_matches_one (mt : Matcher) (l : SortLine) (h : l.dir.doGlob =
 
 /-- **Quoted names.**  Every name — whatever bytes it contains — can be written in a sort file between quotes
 (`\"` for `"`, `\\` for `\`) and is then decoded to exactly that name (and canonicalised like an unquoted one).
-This is the repaired decoder; the pinned one appends the stale tail of the buffer (`Witness.d26_current`). -/
+This is the current decoder (/repo 3c63401); the one before it appended the stale tail of the buffer (`Witness.d26_current`). -/
 theorem quoted_name_decodes (n : List UInt8) :
     decodeFilename true (QUOTE :: (escapeName n ++ [QUOTE]))
       = match Sqfs.Path.canonicalize n with
@@ -277,7 +277,7 @@ theorem no_tail_packing_layout (P : Params) (σ : State) (F : Flags) (d : List U
 
 /-- **`dont_compress`** (full statement).  Every block word of such a file is a hole or has the "stored
 uncompressed" bit, **and** the fragment block that holds its tail end is stored uncompressed — also when the tail is
-deduplicated (a `dont_compress` tail is only ever shared with `dont_compress` tails; D27 is the pinned code
+deduplicated (a `dont_compress` tail is only ever shared with `dont_compress` tails; D27 was the code before /repo fcd11e4
 breaking this). -/
 theorem dont_compress_effect (P : Params) (files : List InFile) (i : Nat) (h : i < files.length)
     (hf : files[i].flags.dontCompress = true) :
